@@ -72,7 +72,7 @@ def run_case(case):
         stats, dg = f.run()
     except core.Starved:
         # simulate() returned without dispatching anything: judge it by what it recorded
-        stats, dg = f.stats, 'starved'
+        stats, dg = f.stats, '0'
     except (HarnessError, core.RunTimeout, Violation):
         raise
     except core.StepCap as e:
